@@ -122,7 +122,7 @@ def run_record_list_part(chk, nf):
     they are and appends that very record to one plain list owned by the logical file; nothing else writes that list;
     the record generator yields the list as it is."""
     from ..terms import (SELF, subterms, pp, neg, raise_conditions, call_recv, call_name, is_call, attr_stores,
-                         literals)
+                         literals, passed_refusal)
     ix, te = chk.ix, chk.terms
     lf = ix.get_class("LogicalFile")
     add = lf.lookup("add_no_format_frame_data")
@@ -169,7 +169,7 @@ def run_record_list_part(chk, nf):
         for c in pc:
             refusal.update(literals(c))
     def only_after_refusals(pc):
-        return all(neg(c) in refusal for c in pc)
+        return all(passed_refusal(c, refusal) for c in pc)
     appends = [e for e in s.effects if e.kind == "call" and is_call(e.value, "append", 1) and e.value[2][0] == rec]
     others = [e for e in s.effects if e.kind == "call" and e.value[1][0] == "attr" and rec in e.value[2]
               and e not in appends]
